@@ -15,9 +15,9 @@ RULE = ("seeded consistently typed feature-structure pairs (depth <=2, atomic / 
         "production-set order); non-trivial = bounded language has >=2 words and a word is rejected; distinct = "
         "(descriptor digest, production-set order signature)")
 ASSUMPTIONS = ["feature structures are consistently typed (a feature is atomic everywhere or complex everywhere)",
-               "bounded comparison: words of length <= 4", "FCFG.contains runs under a line-event budget"]
+               "bounded comparison: words of length <= 4", "FCFG.contains runs under a line-event budget; exhausting it is inconclusive"]
 ATOMIC = {"N": ["sg", "pl"], "P": ["1", "3"]}
-BUDGET = 12000000
+BUDGET = 4000000
 
 
 # ---------------------------------------------------------------------------- feature structures
@@ -286,7 +286,9 @@ def run(case, out):
             out.lines += b.used
         except BudgetExceeded:
             out.lines += b.used
-            out.fail("FCFG.contains:no-termination", word=list(w))
+            # Earley with epsilon productions and feature copies is polynomial but steep; termination is not
+            # what C18 states, so an answer that is merely slow is inconclusive, never a verdict
+            out.probe("contains_budget_exhausted_inconclusive")
             break
         if got is FAILED:
             break
